@@ -186,6 +186,12 @@ def header_fields(F, S):
 
 def check(F, run, tier):
     S = Summaries(F)
+    # refusals at the edge of an integer type's range are exact (neither the largest representable value is turned away nor
+    # the first unrepresentable one let through), wherever in the library they are made
+    from ..rules_stream import capacity_refusals_exact
+    _oc, _nc = capacity_refusals_exact(F, S, ["/src/"])
+    run.add(_oc)
+    run.floor("capacity-refusals", _nc, 33)
     run.declined = DECLINED
     run.explanation = (
         "Static analysis of the map serialiser pair. Decided: R-SEQ (Map::Write, Map::ReadMap and the frozen format "
